@@ -349,6 +349,9 @@ func count(cnt Counters, surface string, op l0.Op, c *Call, rows []queue.VerifRo
 	switch op.Op {
 	case "MutateIds":
 		cnt.add("op", surface, op.MOp, "byid", res)
+		if !c.ActorOK && !c.Refused {
+			cnt.add("actor_denied_pass_unmanaged", surface)
+		}
 		if !c.Refused {
 			seen := map[string]bool{}
 			for _, id := range c.TIDs {
@@ -424,6 +427,8 @@ func count(cnt Counters, surface string, op l0.Op, c *Call, rows []queue.VerifRo
 		switch {
 		case !c.Audit:
 			why = "no_audit"
+		case !c.ActorOK && (c.Kind == "ids" || (c.Kind == "filter" && c.Form != "global")):
+			why = "actor"
 		case c.Kind == "ids":
 			why = "ids"
 		case !c.LimitAbsent && (c.LimitWire <= 0 || c.LimitWire > 1000):
